@@ -175,40 +175,50 @@ void MockExpectedCallsList::onlyKeepUnmatchingExpectations()
 void MockExpectedCallsList::onlyKeepExpectationsWithInputParameterName(const SimpleString& name)
 {
     for (MockExpectedCallsListNode* p = head_; p; p = p->next_)
-        if (! p->expectedCall_->hasInputParameterWithName(name))
+        if (! p->expectedCall_->hasInputParameterWithName(name)) {
+            p->expectedCall_->resetActualCallMatchingState();
             p->expectedCall_ = NULLPTR;
+        }
     pruneEmptyNodeFromList();
 }
 
 void MockExpectedCallsList::onlyKeepExpectationsWithOutputParameterName(const SimpleString& name)
 {
     for (MockExpectedCallsListNode* p = head_; p; p = p->next_)
-        if (! p->expectedCall_->hasOutputParameterWithName(name))
+        if (! p->expectedCall_->hasOutputParameterWithName(name)) {
+            p->expectedCall_->resetActualCallMatchingState();
             p->expectedCall_ = NULLPTR;
+        }
     pruneEmptyNodeFromList();
 }
 
 void MockExpectedCallsList::onlyKeepExpectationsWithInputParameter(const MockNamedValue& parameter)
 {
     for (MockExpectedCallsListNode* p = head_; p; p = p->next_)
-        if (! p->expectedCall_->hasInputParameter(parameter))
+        if (! p->expectedCall_->hasInputParameter(parameter)) {
+            p->expectedCall_->resetActualCallMatchingState();
             p->expectedCall_ = NULLPTR;
+        }
     pruneEmptyNodeFromList();
 }
 
 void MockExpectedCallsList::onlyKeepExpectationsWithOutputParameter(const MockNamedValue& parameter)
 {
     for (MockExpectedCallsListNode* p = head_; p; p = p->next_)
-        if (! p->expectedCall_->hasOutputParameter(parameter))
+        if (! p->expectedCall_->hasOutputParameter(parameter)) {
+            p->expectedCall_->resetActualCallMatchingState();
             p->expectedCall_ = NULLPTR;
+        }
     pruneEmptyNodeFromList();
 }
 
 void MockExpectedCallsList::onlyKeepExpectationsOnObject(const void* objectPtr)
 {
     for (MockExpectedCallsListNode* p = head_; p; p = p->next_)
-        if (! p->expectedCall_->relatesToObject(objectPtr))
+        if (! p->expectedCall_->relatesToObject(objectPtr)) {
+            p->expectedCall_->resetActualCallMatchingState();
             p->expectedCall_ = NULLPTR;
+        }
     pruneEmptyNodeFromList();
 }
 
